@@ -80,7 +80,14 @@ def run_tlc(spec, cfg, env_extra, metadir, workers=1, timeout=1800, xmx="3g", de
     shutil.rmtree(metadir, ignore_errors=True)
     cmd = ["timeout", str(timeout), "tlc", "-workers", str(workers), "-config", cfg,
            "-metadir", metadir, "-noGenerateSpecTE"] + (extra_args or []) + [spec]
-    p = subprocess.run(cmd, cwd=SPEC, env=java_env(env_extra, xmx, deque),
+    def more_files():
+        # TLC's Json module does not close the files it reads; long traces need a generous limit
+        import resource
+        soft, hard = resource.getrlimit(resource.RLIMIT_NOFILE)
+        want = 65536 if hard == resource.RLIM_INFINITY else min(hard, 65536)
+        if soft < want:
+            resource.setrlimit(resource.RLIMIT_NOFILE, (want, hard))
+    p = subprocess.run(cmd, cwd=SPEC, env=java_env(env_extra, xmx, deque), preexec_fn=more_files,
                        stdout=subprocess.PIPE, stderr=subprocess.STDOUT, text=True)
     shutil.rmtree(metadir, ignore_errors=True)
     lines = [ln for ln in p.stdout.splitlines() if not TLC_NOISE.match(ln)]
@@ -232,7 +239,9 @@ def drive_and_validate(name, dictname, histories, spec="Trace_File", driver="dri
     group_key: histories with the same key stay in one shard, in order (needed by validators that
     compare histories with each other).  extra_specs: further validators run on the same traces."""
     wd = workdir(name)
-    nshards = nshards or MAXPAR
+    par = nshards or MAXPAR
+    # trace files are kept short (TLC reads one trace per process); parallelism is a separate matter
+    nshards = nshards or max(MAXPAR, min(240, len(histories) // 250 + 1))
     if group_key is None:
         shards = shard(list(enumerate(histories)), nshards)
     else:
@@ -269,7 +278,7 @@ def drive_and_validate(name, dictname, histories, spec="Trace_File", driver="dri
     results = {"failures": [], "hangs": [], "events": 0, "tlc_states": 0, "histories": len(histories), "workdir": wd,
                "jobs": jobs}
     t0 = time.time()
-    with cf.ThreadPoolExecutor(max_workers=nshards) as ex:
+    with cf.ThreadPoolExecutor(max_workers=min(par, MAXPAR)) as ex:
         for si, fails, hung, nev, distinct in ex.map(work, jobs):
             gidx = jobs[si][3]
             for f in fails:
